@@ -375,9 +375,14 @@ package main
 //@   at call WriteHeader assert {error-statuses-only} arg0 == 400 || arg0 == 500
 //@   ensures {exactly-one-response-action} calls(WriteHeader) + calls(Write) == 1
 //
+//@ ghost var natHeader string
 //@ func clientOffers(i *IPC, w http.ResponseWriter, r *http.Request)
-//@   props C14
+//@   props C14, C03
 //@   requires i != nil && i.ctx != nil && w != nil && r != nil
+//@   at entry ghost natHeader = ""
+//@   at call Get assert {the-nat-type-header-by-its-name} arg1 == "Snowflake-NAT-Type" && arg0 == r.Header
+//@   after call Get ghost natHeader = ret0
+//@   at call EncodeClientPollRequest assert {a-legacy-poll-carries-the-nat-type-its-header-names} calls(Get) == 1 && arg0.NAT == natHeader
 //@   at call ClientOffers assert {legacy-and-versioned-requests-take-the-same-path} arg1.RemoteAddr == ""
 //@   at entry ghost ipcFailed = false
 //@   after call ClientOffers ghost ipcFailed = ret0 != nil
